@@ -139,6 +139,19 @@ def handle : Handler := fun op args =>
   -- logarithmic spacing (Log_Space: exp/log) is not modelled: decided by the round-trip oracle alone
   | "c20.rtfuncG" => withArgs (do let h ← pBytes; let us ← pRats; let a ← pRat; let b ← pRat; let n ← pNat; let c ← pRats; pure (h, us, a, b, n, c)) args
       fun _ => "ok -"
+  -- round trip under a caller-installed global locale (decimal point ','): judged by the VALUES read back only; the model's values
+  -- are those of the classic-locale round trip (the file bytes differ, the values do not)
+  | "c20.rtloc" => withArgs (do let h ← pBytes; let us ← pRats; let t ← pTable; pure (h, us, t)) args fun (h, us, t) =>
+      if us.any (· = 0) then "undef" else
+      let nh := if h.isEmpty then 0 else (splitLines h []).length
+      match exportTable t us h with
+      | .error .diag => "err"
+      | .error .undef => "undef"
+      | .ok bytes => outE (importTable2 bytes us nh) showTable
+  | "c20.rtlocL" => withArgs (do let h ← pBytes; let u ← pRat; let xs ← pRats; pure (h, u, xs)) args fun (h, u, xs) =>
+      if u = 0 then "undef" else
+      let nh := if h.isEmpty then 0 else (splitLines h []).length
+      outE (importList (exportList xs u h) u nh) showList
   | "c20.implist" => withArgs (do let b ← pBytes; let u ← pRat; let k ← pNat; pure (b, u, k)) args fun (b, u, k) =>
       outE (importList b u k) showList
   | "c20.imptable" => withArgs (do let b ← pBytes; let us ← pRats; let k ← pNat; pure (b, us, k)) args fun (b, us, k) =>
